@@ -572,4 +572,6 @@ def _wname(a):
                                                            "immut": "get_immutable_scratch_len()"}.get(a[2], a[2]))
     if a[0] == "self":
         return "self.%s%s" % (".".join(map(str, a[1])) if isinstance(a[1], tuple) else a[1], "" if a[2] == "field" else "." + a[2])
+    if a[0] == "pow2":
+        return "(1 << k)"
     return _aname(a)
